@@ -5,6 +5,7 @@
    which of the two rules (radius > log distance, the original; radius > XOR distance, the repaired one - property C06's
    subject) the compiled code applies is probed on every run as K_inRange_xor; C20_covers_means spells both out. *)
 From Shisui Require Import Base.Bytes Gen.K_handlers Model.Handlers Model.Gossip Proofs.Handlers Proofs.Gossip.
+From Shisui Require Import Proofs.GossipExtra.
 From Coq Require Import Permutation.
 
 (* at most 8 targets; each is among the 32 table nodes nearest the content id (nothing outside the 32 is strictly closer),
@@ -47,6 +48,17 @@ Theorem C20_offers_bounded : forall final permits,
   (length (gossip_offers final permits) <= length final)%nat /\ (length (gossip_offers final permits) <= permits)%nat.
 Proof. exact gossip_offers_length. Qed.
 Print Assumptions C20_offers_bounded.
+
+(* no node is chosen twice: with pairwise distinct table nodes the targets are pairwise distinct, and so are the offers
+   actually enqueued ("the whole batch to at most 8 OF the 32 nearest") *)
+Theorem C20_targets_distinct : forall shuf, is_shuffle1 shuf -> forall cid srt, is_sort cid srt ->
+  forall nodelist c src nc nk res,
+  NoDup nodelist -> gossip_select nodelist srt shuf c src cid nc nk = Ok res -> NoDup res.
+Proof. exact gossip_targets_nodup. Qed.
+Print Assumptions C20_targets_distinct.
+Theorem C20_offers_distinct : forall final permits, NoDup final -> NoDup (gossip_offers final permits).
+Proof. exact gossip_offers_nodup. Qed.
+Print Assumptions C20_offers_distinct.
 
 (* the call succeeds whenever there is content, a key per content item and no malformed cache entry among the 32 nearest *)
 Theorem C20_select_total : forall shuf cid srt nodelist c src nc nk,
